@@ -1,7 +1,7 @@
 from .base import *
 
 ID = 'C06'
-THEOREMS = ['C06_sub_is_add_neg', 'C06_add_spellings', 'C06_translate', 'C06_paths', 'C06_radicand_total', 'C06_mag_value', 'C06_atan2_acc_def', 'C06_reencode_direction', 'C06_cartesian', 'C06_premises_inhabited']
+THEOREMS = ['C06_sub_is_add_neg', 'C06_add_spellings', 'C06_translate', 'C06_paths', 'C06_radicand_total', 'C06_mag_value', 'C06_atan2_acc_def', 'C06_reencode_direction', 'C06_cartesian', 'C06_premises_inhabited', 'C06_cartesian_sub']
 OWNED = {'GAdd', 'GSub', 'TTranslate'}
 RULE = ('pairs of geometric numbers by angle relation (identical, exactly pi apart, within 1e-15..1e-6 of parallel / opposite incl. blades differing by 6, orthogonal, whole-turn twins, arbitrary) x magnitude relation '
         '(equal, 1-8 ulps apart, ratio 1e+-16, zero operand, small integers, log-uniform over the domain), blades to 2^40 (2^19 for the Cartesian leg); 4 spellings of + and -, translate, a-a, a+b vs b+a; '
@@ -48,6 +48,6 @@ def generate(rng, tier):
 LEVEL_TEXT = ('Kernel-checked structural theorems for every libm: the 4 spellings of + and - and translate are one function; a - b IS a + negate(b); the three code paths are exactly as documented; '
               'the general path\'s magnitude sqrt(max(radicand, 0)) is never NaN and never negative for ANY input (this is the repaired defect F3). '
               'C06_mag_value (S2, REAL pi and cos): on the general path, for any libm with |cosF - cos| <= u on [-8,8], the magnitude of a + b is the Euclidean length of the Cartesian sum sqrt(|a|^2 + |b|^2 + 2|a||b|cos(dir b - dir a)) up to the square root of the radicand error (|a|^2+|b|^2)(u + 1e-14) + 10*2^-1075 plus one rounding. '
-              'C06_cartesian (S2, REAL pi / cos / sin - the numeric heart of the property): on the general path the polar result [mag, angle] of a + b reproduces the Cartesian sum V = |a|(cos,sin)(dir a) + |b|(cos,sin)(dir b) component by component within T = sqrt(Bnd)(1+2^-53) + 2^-53|V| + 3E + (|a|+|b|+2E)(u2 + 1e-10 + 3e-14 + n*4e-15), E = (|a|+|b|)(u+3e-15) + 4*2^-1075, n = blade a + blade b < 2^40, for any libm with |cosF-cos|, |sinF-sin| <= u on [-8,8] and atan2 within u2 of an angle reproducing its arguments (atan2_acc, an explicit premise; monitored on every recorded call). C06_reencode_direction (no libm): the re-encoding new_with_blade(n, at - fl(n*PI/2), PI) points along at within 1e-10 + 3e-14 + n*4e-15 modulo whole turns - the linear growth with the blade sum is inherent (float PI is not pi, the blade shift is rounded) and is exactly the allowance the predicate grants. '
+              'C06_cartesian (S2, REAL pi / cos / sin - the numeric heart of the property): on the general path the polar result [mag, angle] of a + b reproduces the Cartesian sum V = |a|(cos,sin)(dir a) + |b|(cos,sin)(dir b) component by component within T = sqrt(Bnd)(1+2^-53) + 2^-53|V| + 3E + (|a|+|b|+2E)(u2 + 1e-10 + 3e-14 + n*4e-15), E = (|a|+|b|)(u+3e-15) + 4*2^-1075, n = blade a + blade b < 2^40, for any libm with |cosF-cos|, |sinF-sin| <= u on [-8,8] and atan2 within u2 of an angle reproducing its arguments (atan2_acc, an explicit premise; monitored on every recorded call). C06_cartesian_sub: the same for a - b against the Cartesian difference. C06_reencode_direction (no libm): the re-encoding new_with_blade(n, at - fl(n*PI/2), PI) points along at within 1e-10 + 3e-14 + n*4e-15 modulo whole turns - the linear growth with the blade sum is inherent (float PI is not pi, the blade shift is rounded) and is exactly the allowance the predicate grants. '
               'The equal-angle and opposite-angle paths are exact (C14); every case of each run is additionally decided by a 60-digit oracle (S3).')
 LEVEL_NOTE = ('Partial. Trusted: Coq kernel + vm_compute; 4 standard-library axioms; plus the primitive-integer axioms (PrimInt63.*, Uint63.*_spec) that the Interval tactic uses for the two bounds on the real pi in PiBounds.v (value theorem only); hand-written model validated bit-for-bit each run with the recorded libm table; the three libm premises are shown jointly satisfiable (C06_premises_inhabited: correctly rounded real cos / sin and a rounded, clamped real angle function).')
